@@ -236,17 +236,23 @@ Proof.
 Qed.
 
 Lemma mkdir_all_ext f p f' : mkdir_all f p = FOk f' -> ext f f'.
-Proof. intros H. apply (mkdir_prefixes_spec _ _ _ H). Qed.
+Proof.
+  unfold mkdir_all. destruct (is_dir f p); [intros H; injection H as <-; apply ext_refl|].
+  destruct (names_fit p); [|discriminate]. intros H. apply (mkdir_prefixes_spec _ _ _ H).
+Qed.
 
 Lemma mkdir_all_new f p f' q : mkdir_all f p = FOk f' -> fs_get f q = None ->
   fs_get f' q = None \/ (fs_get f' q = Some Dir /\ In q (prefixes p)).
-Proof. intros H. apply (mkdir_prefixes_spec _ _ _ H). Qed.
+Proof.
+  unfold mkdir_all. destruct (is_dir f p); [intros H Hq; injection H as <-; now left|].
+  destruct (names_fit p); [|discriminate]. intros H. apply (mkdir_prefixes_spec _ _ _ H).
+Qed.
 
 Lemma symlink_spec f l t f' : symlink f l t = FOk f' ->
   fs_get f l = None /\ f' = f ++ [(l, Link t)].
 Proof.
   unfold symlink, lstat. destruct (fs_get f l); [discriminate|].
-  destruct (is_dir f (pathdir l)); [|discriminate]. intros H. injection H as <-. auto.
+  destruct (is_dir f (pathdir l) && names_fit l); [|discriminate]. intros H. injection H as <-. auto.
 Qed.
 
 Lemma symlink_ext f l t f' : symlink f l t = FOk f' -> ext f f'.
@@ -269,7 +275,7 @@ Proof.
   { rewrite fs_get_move by assumption.
     rewrite (fs_get_filter (fun x => negb (beq x b))). rewrite beq_sym, Hbq. reflexivity. }
   destruct (lstat f a) as [na|]; [|discriminate H].
-  destruct (negb (is_dir f (pathdir b))); [discriminate H|].
+  destruct (negb (is_dir f (pathdir b)) || negb (names_fit b)); [discriminate H|].
   destruct (at_or_under a b).
   { destruct (beq a b); [|discriminate H]. injection H as <-. reflexivity. }
   destruct (lstat f b) as [[| |]|].
@@ -286,7 +292,7 @@ Proof.
   assert (Hb : beq p q = false) by (apply beq_false; congruence).
   destruct (fs_get f p) as [[| |]|] eqn:E; try discriminate H.
   - injection H as <-. rewrite fs_get_set, Hb. reflexivity.
-  - destruct (is_dir f (pathdir p)); [|discriminate H]. injection H as <-.
+  - destruct (is_dir f (pathdir p) && names_fit p); [|discriminate H]. injection H as <-.
     rewrite fs_get_snoc, Hb. destruct (fs_get f q); reflexivity.
 Qed.
 
@@ -297,7 +303,7 @@ Lemma write_text_cases f p c f' : write_text f p c = FOk f' ->
 Proof.
   unfold write_text, lstat. destruct (fs_get f p) as [[| |]|]; try discriminate.
   - intros H. injection H as <-. right. eexists. split; reflexivity.
-  - destruct (is_dir f (pathdir p)); [|discriminate]. intros H. injection H as <-. left. auto.
+  - destruct (is_dir f (pathdir p) && names_fit p); [|discriminate]. intros H. injection H as <-. left. auto.
 Qed.
 
 Lemma open_trunc_get f p f' q : open_trunc f p = FOk f' -> q <> p -> fs_get f' q = fs_get f q.
@@ -306,7 +312,7 @@ Proof.
   assert (Hb : beq p q = false) by (apply beq_false; congruence).
   destruct (fs_get f p) as [[| |]|] eqn:E; try discriminate H.
   - injection H as <-. rewrite fs_get_set, Hb. reflexivity.
-  - destruct (is_dir f (pathdir p)); [|discriminate H]. injection H as <-.
+  - destruct (is_dir f (pathdir p) && names_fit p); [|discriminate H]. injection H as <-.
     rewrite fs_get_snoc, Hb. destruct (fs_get f q); reflexivity.
 Qed.
 
